@@ -23,6 +23,25 @@ CHECKS = {
         note='trusted base: measured scipp 25.4 promotion table and unit algebra in sa/scipp_model.py, sa/units.py; same-unit preconditions of geometry kernels are a frozen table', ref='3 C07'),
 }
 
+CHECKS.update({
+    'C03': dict(
+        level='other', technique='abstract interpretation to vector/scalar normal forms; formula-recognition and invariance by substitution',
+        text='Static: the six Euclidean definitions hold as term identities; two_theta is one of the two recognised epsilon-accurate formulas and contains no acos/asin/cos of a normalised product; its shape confines it to [0, pi]; the normal form is invariant under beam swap and positive rescaling; no argument is written; beamline graph tables are one-step sound. The 1e-15 accuracy is Kahan\'s theorem about the recognised formula (cited).',
+        note='trusts scipp model table, term normal form, spec/formulas.py', ref='3 C03'),
+    'C04': dict(
+        level='other', technique='abstract interpretation of all dispatcher paths; sibling agreement against the documented construction',
+        text='Static: on every path (dispatcher, general, optimised, reflectometry variant) the computed normal forms equal the documented construction (drop distance, beam-aligned frame, beam raised along e_y=-g/|g|, 2theta, phi); the dispatch predicate and the refusal predicate are the documented one; no argument is written.',
+        note='trusts scipp model table and spec/formulas.py; continuity/limits follow from branch agreement and are not separately decided', ref='3 C04'),
+    'C06': dict(
+        level='other', technique='taint analysis (possibly-binned operands) inside the abstract interpreter; dense-vs-binned sibling comparison',
+        text='Static necessary conditions: every kernel reachable from a graph table applies only broadcasting operations to possibly-binned operands, reads unit/dtype only through elem_unit/elem_dtype (which dispatch to the event buffer), gives the same normal form in dense and binned interpretation and writes to no argument.',
+        note='per-event application and preservation of weights/masks/order are scipp.transform_coords (not analysed)', ref='3 C06'),
+    'C08': dict(
+        level='other', technique='abstract interpretation to linear forms over vector atoms and non-commutative matrix words',
+        text='Static: Q components are the fields of (2pi/lambda)(e_i-e_f); pack/unpack are inverse order-preserving permutations; hkl=inv(R UB)Q/(2pi) so 2pi R UB hkl reduces to Q by word cancellation; UB=U B.',
+        note='conditioning (accuracy for ill-conditioned B) is runtime and not decided', ref='3 C08'),
+})
+
 NA_REASON = 'check not built yet (planned: see DESIGN.md section 3)'
 
 
